@@ -381,6 +381,7 @@ func c14nested(c *core.Ctx, in []string, r *core.Rand) bool {
 		for _, g := range k5 {
 			s5 = append(s5, append([]string(nil), g.Values...))
 		}
+		runtime.GC() // the kept results are partly the only reference to what they hold (Map builds new strings)
 		for rep := 0; rep < 2; rep++ {
 			_ = slices.Filter(other, func(v string) bool { return true })
 			_ = slices.Map(other, func(v string) string { return "x" + v })
